@@ -867,13 +867,16 @@ class _ExecutorManagerThread(threading.Thread):
         # Terminate the remaining workers using SIGKILL. This function also
         # terminates descendant workers of the children in case there is some
         # nested parallelism.
-        while self.processes:
-            _, p = self.processes.popitem()
-            mp.util.debug(f"terminate process {p.name}, reason: {reason}")
-            try:
-                kill_process_tree(p)
-            except ProcessLookupError:  # pragma: no cover
-                pass
+        # Hold the processes management lock meanwhile: a worker killed while
+        # it holds this lock (on its timeout exit path) would keep it forever.
+        with self.processes_management_lock:
+            while self.processes:
+                _, p = self.processes.popitem()
+                mp.util.debug(f"terminate process {p.name}, reason: {reason}")
+                try:
+                    kill_process_tree(p)
+                except ProcessLookupError:  # pragma: no cover
+                    pass
 
     def shutdown_workers(self):
         # shutdown all workers in self.processes
